@@ -221,7 +221,25 @@ def _bare_ascii(name):
     return re.match(r'^[A-Za-z_][A-Za-z0-9_.]*$', name) is not None and not re.match(r'^[A-Za-z]{1,3}[0-9]+$', name)
 
 
-def write_files(spec, dirpath, sheet_order=None, links=None, stale=True):
+def merge_plan(spec):
+    """Cells (b, s, r, c) to be merged with their unpopulated right neighbour (r, c+1): pairs that lie inside a rectangle
+    some formula reads, the left cell populated and not part of an array formula.  At most two per sheet, never overlapping."""
+    pop = W.populated(spec)
+    arr = {k for cell in spec['cells'] if 'arr' in cell for k in W.cell_keys(cell)}
+    out, per_sheet, used = [], {}, set()
+    rects = sorted({x for cell in spec['cells'] if 'f' in cell for kind, x in W.refs_of(cell['f'], spec.get('names', [])) if kind == 'rect'})
+    for (b, s_, r1, c1, r2, c2) in rects:
+        for r in range(r1, r2 + 1):
+            for c in range(c1, c2):
+                k, k2 = (b, s_, r, c), (b, s_, r, c + 1)
+                if k in pop and k not in arr and k2 not in pop and k not in used and k2 not in used and per_sheet.get((b, s_), 0) < 2:
+                    out.append(k)
+                    used.update((k, k2))
+                    per_sheet[(b, s_)] = per_sheet.get((b, s_), 0) + 1
+    return out
+
+
+def write_files(spec, dirpath, sheet_order=None, links=None, stale=True, merge=False):
     import openpyxl
     from openpyxl.worksheet.formula import ArrayFormula
     from openpyxl.workbook.defined_name import DefinedName
@@ -264,6 +282,10 @@ def write_files(spec, dirpath, sheet_order=None, links=None, stale=True):
                 cc = ws.cell(row=r, column=c, value=v)
                 if isinstance(cell['v'], str) and cc.data_type != 's':
                     cc.data_type = 's'  # text that looks like a formula / an error stays text
+        if merge:
+            for (mb, ms, r, c) in merge_plan(spec):
+                if mb == b:
+                    wb[bk['sheets'][ms]].merge_cells(start_row=r, start_column=c, end_row=r, end_column=c + 1)
         for nm in names:
             nb, ns, r1, c1, r2, c2 = nm['rect']
             if nb != b:
